@@ -32,6 +32,16 @@ def xop_terms(op):
     if k == "scan":
         return ["XOp (%s)" % refresh_term(op["parent"], True, op["view"]),
                 "XScan %s %s" % (chain_term(op["chain"]), cB(op["del"]))]
+    # owner::update_wallet_state: refresh of the active account, confirmation by kernel, scan
+    # (the chains here are shorter than the 100-block look-back, so it covers the whole chain),
+    # TTL expiry
+    if k == "update_state":
+        v = op["view"]
+        km = cL([cN(x[1]) for x in v["kernel_missing"] if x[0] == op["parent"]])
+        return ["XOp (%s)" % refresh_term(op["parent"], False, v),
+                "XKernel %s %s" % (cN(op["parent"]), km),
+                "XScan %s false" % chain_term(op["chain"]),
+                "XOp (OpExpire %s)" % cN(op["tip"])]
     return ["XOp (%s)" % t for t in op_terms(op)]
 
 
@@ -505,6 +515,10 @@ def oracle_c04(rows, equation=True):
             k = s["op"]["k"]
             if k == "cancel" and s["rc"] == [0]:
                 had_cancel = True
+            if k == "scan" and s["op"].get("del"):
+                had_cancel = True    # a scan that drops pending transactions cancels them
+            if k == "restore":
+                had_cancel = False   # a new database: the log starts again from the chain
             # partition of the figures, on every snapshot
             act = snap["active"]
             confh = snap["conf_h"]
